@@ -7,6 +7,7 @@ import (
 	"fmt"
 	"math/big"
 	"math/rand"
+	"sort"
 
 	"github.com/idena-network/idena-go/blockchain/attachments"
 	"github.com/idena-network/idena-go/blockchain/fee"
@@ -48,6 +49,8 @@ type gen struct {
 	pend      map[common.Hash]pending
 	wasmCode  map[string][]byte
 	wnonce    int
+	jump      uint64    // shadow mode: extra blocks the next fabricated header skips
+	lateTerm  *contract // voting contract to terminate after the jump
 }
 
 func newGen(cc *caseCtx) *gen {
@@ -133,6 +136,7 @@ func (g *gen) next(st *appstate.AppState, hdr *types.Header) (txInfo, bool) {
 	var pd pending
 	sender := g.user()
 	big0 := false // maxFee budget class
+	lateBudget := false
 	deployE := func(typ int, args [][]byte, what string) {
 		p, _ := attachments.CreateDeployContractAttachment(embeddedTypes[typ-1], nil, nil, args...).ToBytes()
 		amt := new(big.Int).Mul(fpg, big.NewInt(3000000))
@@ -183,7 +187,27 @@ func (g *gen) next(st *appstate.AppState, hdr *types.Header) (txInfo, bool) {
 	}
 
 	choice := r.Intn(100)
+	if g.lateTerm != nil {
+		c := g.lateTerm
+		g.lateTerm = nil
+		if r.Intn(4) != 0 {
+			sender = c.owner
+		}
+		p, _ := attachments.CreateTerminateContractAttachment(g.cc.w.Addrs[g.user()].Bytes()).ToBytes()
+		a := c.addr
+		tx = &types.Transaction{Type: types.TerminateContractTx, To: &a, Payload: p}
+		desc = "late-terminate-" + cname(c)
+		lateBudget = true
+		cc := c
+		pd.hook = func(ok bool) {
+			if ok {
+				cc.dead = true
+			}
+		}
+		choice = -1
+	}
 	switch {
+	case choice < 0:
 	case choice < 14 || len(g.contracts) == 0: // embedded deploy
 		typ := 1 + r.Intn(5)
 		if r.Intn(6) == 0 {
@@ -305,7 +329,9 @@ func (g *gen) next(st *appstate.AppState, hdr *types.Header) (txInfo, bool) {
 		case c.typ == 1:
 			call(c, "transfer", someAmt(), g.anyAddr().Bytes(), amtAround(balOf(c.addr)).Bytes())
 		case c.typ == 2:
-			g.votingCall(c, &sender, call, someAmt, hdr)
+			if ftx, fdesc := g.votingCall(st, c, &sender, call, someAmt, hdr); ftx != nil {
+				tx, desc = ftx, fdesc
+			}
 		case c.typ == 3:
 			if r.Intn(2) == 0 {
 				call(c, "push", someAmt())
@@ -386,6 +412,12 @@ func (g *gen) next(st *appstate.AppState, hdr *types.Header) (txInfo, bool) {
 	default:
 		budget = ample
 	}
+	if g.cc.cs.Fpg != "" {
+		budget = int64(r.Intn(1500))
+	}
+	if lateBudget && r.Intn(4) != 0 {
+		budget = int64(200 + r.Intn(3300)) // runs out somewhere inside the termination
+	}
 	nsz := st.ValidatorsCache.NetworkSize()
 	ti := txInfo{Tx: tx, Sender: g.cc.w.Addrs[sender], Desc: desc}
 	{
@@ -404,6 +436,11 @@ func (g *gen) next(st *appstate.AppState, hdr *types.Header) (txInfo, bool) {
 	}
 	if r.Intn(3) == 0 {
 		tx.MaxFee.Add(tx.MaxFee, new(big.Int).Rand(r, fpg)) // a remainder below one gas unit
+	}
+	if g.cc.cs.Fpg != "" && r.Intn(2) == 0 {
+		// a remainder just below a full gas unit (getGasLimit divides with 16 decimal digits, half-up)
+		tx.MaxFee = new(big.Int).Add(txFee, new(big.Int).Mul(fpg, big.NewInt(budget)))
+		tx.MaxFee.Add(tx.MaxFee, new(big.Int).Sub(fpg, big.NewInt(int64(1+r.Intn(2)))))
 	}
 	if g.cc.cs.Mode == "shadow" {
 		stx, err := types.SignTx(tx, g.cc.w.Keys[sender])
@@ -425,48 +462,95 @@ func cname(c *contract) string {
 	return []string{"", "timelock", "voting", "oraclelock", "refundlock", "multisig"}[c.typ]
 }
 
-func (g *gen) votingCall(c *contract, sender *int, call func(*contract, string, *big.Int, ...[]byte), someAmt func() *big.Int, hdr *types.Header) {
+func (g *gen) votingCall(st *appstate.AppState, c *contract, sender *int, call func(*contract, string, *big.Int, ...[]byte), someAmt func() *big.Int, hdr *types.Header) (*types.Transaction, string) {
 	r := g.r
+	u64of := func(key string) uint64 {
+		v := st.State.GetContractValue(c.addr, []byte(key))
+		if len(v) != 8 {
+			return 0
+		}
+		var x uint64
+		for i := 7; i >= 0; i-- {
+			x = x<<8 | uint64(v[i])
+		}
+		return x
+	}
+	shadow := g.cc.cs.Mode == "shadow"
 	switch c.phase {
 	case 0:
-		if r.Intn(4) == 0 {
+		dep := new(big.Int).SetBytes(st.State.GetContractValue(c.addr, []byte("ownerDeposit")))
+		if st.State.GetBalance(c.addr).Cmp(dep) < 0 && r.Intn(5) != 0 {
+			a := c.addr
+			amt := new(big.Int).Add(dep, chainfx_dna(int64(r.Intn(30))))
+			if r.Intn(6) == 0 {
+				amt = new(big.Int).Sub(dep, big.NewInt(1)) // one unit short
+			}
+			return &types.Transaction{Type: types.SendTx, To: &a, Amount: amt}, "fund-voting"
+		}
+		if r.Intn(6) == 0 {
 			call(c, "addStake", someAmt())
 		} else {
 			call(c, "startVoting", nil)
 		}
 	case 1:
+		dur := hdr.Height() - u64of("startBlock")
+		vd := u64of("votingDuration")
+		if shadow && len(c.votes) == 0 && r.Intn(6) == 0 {
+			// a started voting nobody took part in, terminated long after its end (stake-dependent delay)
+			g.jump, g.lateTerm = 45000+uint64(r.Intn(3000)), c
+			call(c, "prolongVoting", nil)
+			return nil, ""
+		}
 		k := r.Intn(10)
 		switch {
-		case k < 3: // secret vote by an identity
+		case dur < vd && k < 7: // secret vote by an identity
 			*sender = g.user()
 			v := vote{v: byte(r.Intn(2)), salt: []byte{byte(r.Intn(256)), 7}}
 			h := crypto.Hash(append(common.ToBytes(v.v), v.salt...))
 			call(c, "sendVoteProof", big.NewInt(int64(1000+r.Intn(2000))), h[:])
-			c.votes[*sender] = v
-		case k < 6: // open vote
-			for i, v := range c.votes {
+			if _, ok := c.votes[*sender]; !ok {
+				c.votes[*sender] = v
+			}
+			if shadow && len(c.votes) >= 2 && r.Intn(2) == 0 {
+				g.jump = vd
+			}
+		case dur >= vd && k < 6: // open vote
+			voters := make([]int, 0, len(c.votes))
+			for i := range c.votes {
+				voters = append(voters, i)
+			}
+			sort.Ints(voters)
+			for _, i := range voters {
+				v := c.votes[i]
 				if r.Intn(2) == 0 {
 					continue
 				}
 				*sender = i
 				salt := v.salt
-				if r.Intn(8) == 0 {
+				if r.Intn(10) == 0 {
 					salt = []byte{1}
 				}
 				call(c, "sendVote", nil, []byte{v.v}, salt)
-				return
+				return nil, ""
 			}
 			call(c, "sendVote", nil, []byte{1}, []byte{2})
 		case k < 8:
 			call(c, "finishVoting", someAmt())
 		case k == 8:
 			call(c, "prolongVoting", nil)
+			if shadow && r.Intn(2) == 0 {
+				g.jump = 150
+			}
 		default:
 			call(c, "addStake", someAmt())
 		}
 	default:
+		if shadow && r.Intn(2) == 0 {
+			g.jump, g.lateTerm = 45000+uint64(r.Intn(3000)), c
+		}
 		call(c, "finishVoting", nil)
 	}
+	return nil, ""
 }
 
 func (g *gen) contractAddr(st *appstate.AppState, ti txInfo) common.Address {
